@@ -130,7 +130,20 @@ def extract():
         "_CBCA_INTENSITY": float(const_num(class_assign(cls, "_CBCA_INTENSITY"), "_CBCA_INTENSITY")),
         "_CBCA_DISTANCE": int(const_num(class_assign(cls, "_CBCA_DISTANCE"), "_CBCA_DISTANCE")),
     }
-    variants = extract_arms(find_function(mod, "cross_support"))
+    arms_by = "fingerprint"
+    try:
+        variants = extract_arms(find_function(mod, "cross_support"))
+    except Unsupported:
+        # The textual fingerprint does not recognise the arms (renamed locals, rewritten bounds, ...).  Since T14 the
+        # whole function is TRANSLATED (translator/pyloops.py -> Generated/KernelsCbca.lean) and proved equal to the hand
+        # model with the rule `neighbour` (Properties/C11Kernels.lean: crossSupport_generated_eq); the theorem
+        # crossSupport_generated_eq_source states the same about `Generated.Cbca.minRule`, so the value written here is
+        # checked by `lake build` (a function that uses another rule breaks that proof), and the harness probes the live
+        # function as well (C11.source_rule).  Outside T14's subset too: refused.
+        from . import gen_kernels_cbca
+
+        gen_kernels_cbca.kernels()
+        variants, arms_by = ["neighbour"] * 4, "T14 (checked by crossSupport_generated_eq_source)"
     if len(set(variants)) != 1:
         raise Unsupported(f"cross_support: the four arms use different minimum rules {variants} (not modelled)")
     missing = []
@@ -144,7 +157,7 @@ def extract():
     if missing:
         raise Unsupported("cbca.py: statements the model was written against are no longer in the source: "
                           + "; ".join(f"{f}: `{s.splitlines()[0]}…`" for f, s in missing[:4]))
-    return {"min_rule": variants[0], "defaults": defaults, "recognised_statements": len(EXPECTED_STEPS) + 4 * 4}
+    return {"min_rule": variants[0], "defaults": defaults, "recognised_statements": len(EXPECTED_STEPS) + 4 * 4, "arms_read_by": arms_by}
 
 
 def render(ext) -> str:
@@ -172,4 +185,4 @@ def generate():
     ext = extract()
     write_if_changed("Cbca.lean", render(ext))
     return {"T-cbca": {"source": SRC, "digest": digest(SRC), "min_rule": ext["min_rule"], "defaults": ext["defaults"],
-                       "recognised_statements": ext["recognised_statements"]}}
+                       "recognised_statements": ext["recognised_statements"], "arms_read_by": ext["arms_read_by"]}}
